@@ -8,9 +8,9 @@ from . import configs, runner, semantic, tlcrun
 BASE = dict(
     Dom=(2, 2), KSet={1, 2}, MaxK=8, MaxL=4, MaxIn=2, InKindSeq=("emb",),
     InnerKinds={"sum", "had", "kron"}, MaxAr=2, FreeOrder=False, MaxOuts=2, MaxBases=1, MaxOps=0, OpSet=set(),
-    Scheme=1, OnlySD=False, PolyDeg=1, DiffK={1}, MaxDeg=2, Invalid=False, MaxHist=0,
+    Scheme=1, OnlySD=False, PolyDeg=1, DiffK={1}, MaxDeg=2, EvExp=0, Invalid=False, MaxHist=0,
     RunActs={"update", "eval"}, NVer=2, GradMod=0, QueryOn=False, J=1,
-    EmitOps={0}, EmitMod=1, EmitRes=0, EmitSmall=3,
+    EmitOps={0}, EmitMod=1, EmitRes=0, EmitSmall=3, EmitFilter="all",
 )
 
 
@@ -97,7 +97,7 @@ def configurations(pid, tier, seed):
                           InnerKinds=ALLINNER, MaxOps=1, OpSet={"evidence"}, EmitOps={1},
                           MaxOuts=2, OnlySD=True, EmitSmall=2, **em(100, 4)), {"targets": {"evidence"}}),
             "b_evi_poly": (cfg(Dom=(3, 2), KSet={1, 2}, MaxL=4, InKindSeq=("poly",), Scheme=2,
-                               PolyDeg=2, MaxOps=1, OpSet={"evidence"}, EmitOps={1},
+                               PolyDeg=2, EvExp=1, MaxOps=1, OpSet={"evidence"}, EmitOps={1},
                                MaxOuts=2, OnlySD=True, **em(12)), {"targets": {"evidence"}}),
             "c_evi_then": (cfg(Dom=(2, 2), KSet={2}, MaxL=4, InKindSeq=("emb", "catp"),
                                MaxOps=2, OpSet={"evidence", "integrate", "multiply"},
@@ -209,6 +209,18 @@ def configurations(pid, tier, seed):
                            InnerKinds={"sum", "had", "mix"}, QueryOn=True, Scheme=4,
                            EmitSmall=3, **sd, **em(12, 2)), o),
         }
+    if pid == "C15":
+        o = {"sample": True, "rows": False, "flagset": "fo4"}
+        norm = dict(OnlySD=True, MaxOuts=1, KSet={1, 2})
+        return {
+            "a_norm2": (cfg(Dom=(2, 3), InKindSeq=("catp",), InnerKinds=ALLINNER, MaxL=5,
+                            Scheme=4, EmitSmall=3, **norm, **em(12, 2)), o),
+            "b_onehot": (cfg(Dom=(2, 3), InKindSeq=("catp",), InnerKinds=ALLINNER, MaxL=5,
+                             Scheme=5, EmitSmall=3, **norm, **em(12, 2)), o),
+            "c_norm3": (cfg(Dom=(2, 2, 2), InKindSeq=("catp",), InnerKinds=ALLINNER, MaxL=5,
+                            MaxIn=3, MaxAr=3, Scheme=4, EmitSmall=0, OnlySD=True, MaxOuts=1,
+                            KSet={2, 1}, **em(40, 4)), o),
+        }
     raise KeyError(pid)
 
 
@@ -310,6 +322,7 @@ def signature(beh, f):
         "action": f.get("action"),
         "prod_order_sensitive": prod_order_sensitive(beh),
         "fmt": f.get("fmt"),
+        "compiled_layer_types": f.get("layer_types"),
     }
 
 
